@@ -7,6 +7,7 @@ the stream and reads nothing outside it; the positions used inside a segment are
 (a symmetric pair of affinity entries shares one draw); other membership rows are zero; the random
 affinity start is symmetric.  Tie: `realization_start` hook events vs an independent reference stream.
 -/
+import MT.Generated.UtilsCode
 import MTProofs.Init
 import MTProofs.Select
 import Mathlib.Data.List.Basic
@@ -238,5 +239,10 @@ theorem random_affinity_draws_cover (K : Nat) {t : Nat} (ht : t < rowStart K K) 
 /-- non-vacuity: K = 3: the six draws of a layer are used by the six unordered pairs -/
 example : (triPos 3 0 0, triPos 3 0 1, triPos 3 0 2, triPos 3 1 1, triPos 3 1 2, triPos 3 2 2, rowStart 3 3)
     = (0, 1, 2, 3, 4, 5, 6) ∧ triPos 3 2 1 = triPos 3 1 2 := by decide
+
+/-- `utils::RandomGenerator` as it stands in utils.hpp: the seed is kept, the engine is seeded with it (as
+`unsigned int`), every call returns the next value of the distribution over the engine -/
+theorem random_generator_documented :
+    Gen.randomGeneratorText = "std::time_tseed;rng_trng;dist_tdist;RandomGenerator(std::time_tseed=std::time(nullptr)):seed(seed){rng.seed(static_cast<unsignedint>(seed));}autooperator()(){returndist(rng);}" := rfl
 
 end MTProps.C17
